@@ -11,8 +11,8 @@ S2C: the real tornado.auth._oauth_signature / _oauth10a_signature are called wit
 C2S: seeded random parameter sets (<= 6 pairs, random Unicode names and values), secrets and
      URL shapes, validated by TLC (Trace_OAuth1 recomputes key and text).
 
-Binding demonstrated during development (scratch worktree, notes/text.md): `safe="~/"` in
-_oauth_escape, `method` not upper-cased, token secret dropped from the key - each reported.
+Binding demonstrated during development (scratch worktree, notes/text.md): method not upper-cased
+in the base string, token secret dropped from the key - each reported as VIOLATION.
 """
 import random
 
